@@ -27,7 +27,7 @@ struct Case {
     exp: Option<u8>,
     /// which (src,dst) pairs: None = all ordered pairs
     pair: Option<(u16, u16)>,
-    /// metamorphic variant: 0 none, 1 permute, 2 duplicate the input lists
+    /// metamorphic variant: 0 none, 1 permute, 2 duplicate the input lists, 3 add foreign non-core segments
     variant: u8,
 }
 
@@ -111,6 +111,14 @@ fn check(c: &Case, obs: &mut Obs) -> CheckResult {
         match c.variant {
             1 => { sc.reverse(); sn.reverse(); let k = sn.len() / 2; sn.rotate_left(k); }
             2 => { let d: Vec<_> = sn.iter().step_by(2).cloned().collect(); sn.extend(d); let d: Vec<_> = sc.iter().step_by(2).cloned().collect(); sc.extend(d); }
+            // foreign non-core segments: they contain neither endpoint, so they can be neither the
+            // first nor the last segment of a path, and only a core segment may stand in the middle:
+            // the result must not change
+            3 => {
+                let foreign: Vec<UnsignedPathSegment> = all.iter().filter(|s| !s.core && s.chain.hops.iter().all(|h| h.asn != src && h.asn != dst)).map(|s| segconv::sut_segment(&t, s)).collect();
+                if !foreign.is_empty() { obs.label("foreign-non-core-segments-added"); }
+                for (i, f) in foreign.into_iter().enumerate() { if i % 2 == 0 { sn.push(f) } else { sn.insert(0, f) } }
+            }
             _ => {}
         }
         let (sia, dia) = (IsdAsn(t.ases[src].ia), IsdAsn(t.ases[dst].ia));
@@ -178,7 +186,7 @@ fn check(c: &Case, obs: &mut Obs) -> CheckResult {
 }
 
 fn case_strategy(big: bool) -> impl Strategy<Value = Case> {
-    (if big { topogen::topo_strategy(3, 4).boxed() } else { topogen::topo_strategy(2, 3).boxed() }, prop_oneof![Just(1_700_000_000u32), 1_600_000_000u32..1_900_000_000], any::<u64>(), prop_oneof![2 => Just(None), 1 => Just(Some(63u8)), 1 => Just(Some(0u8)), 1 => Just(Some(255u8))], any::<(u16, u16)>(), 0u8..3)
+    (if big { topogen::topo_strategy(3, 4).boxed() } else { topogen::topo_strategy(2, 3).boxed() }, prop_oneof![Just(1_700_000_000u32), 1_600_000_000u32..1_900_000_000], any::<u64>(), prop_oneof![2 => Just(None), 1 => Just(Some(63u8)), 1 => Just(Some(0u8)), 1 => Just(Some(255u8))], any::<(u16, u16)>(), 0u8..4)
         .prop_map(move |(topo, ts, bseed, exp, pair, variant)| Case { topo, ts, bseed, exp, pair: if big { Some(pair) } else { None }, variant })
 }
 
@@ -187,7 +195,7 @@ fn run(ctx: &Ctx) {
     // quick: every 7th member (rotating with the seed), thorough: all
     let step = 1u64;
     let off = ctx.seed % step;
-    ctx.run_enum("small-topologies-all-pairs", fam.len() as u64, step == 1, |i| (i % step == off).then(|| Case { topo: fam[i as usize].clone(), ts: 1_700_000_000, bseed: i ^ ctx.seed, exp: if i % 3 == 0 { None } else { Some(63) }, pair: None, variant: (i % 3) as u8 }), check);
+    ctx.run_enum("small-topologies-all-pairs", fam.len() as u64, step == 1, |i| (i % step == off).then(|| Case { topo: fam[i as usize].clone(), ts: 1_700_000_000, bseed: i ^ ctx.seed, exp: if i % 3 == 0 { None } else { Some(63) }, pair: None, variant: (i % 4) as u8 }), check);
     let n = ctx.tier.pick(5_000, 200_000);
     ctx.run_prop("random-topologies-all-pairs", n, || case_strategy(false), check);
     let n = ctx.tier.pick(15_000, 600_000);
